@@ -215,11 +215,29 @@ func (f *Frame) modelCallFull(key string, sig *types.Signature, vals []Val, args
 		vc.ctxs = append(vc.ctxs, ctx)
 		return Tuple{Val{ctx, SIface, resT(0)}, cancel}, true
 	case "time.AfterFunc":
+		// A-STD: returns a fresh timer that will run the function once after the delay (ghost: its delay and function)
 		vc.used["A-STD"] = true
-		return f.newRef("timer", resT(0)), true
+		tm := f.newRef("timer", resT(0))
+		dl := f.getCell(f.cur, "ghost:timerDelay", "(Array Int Int)")
+		var d string
+		if isBV(vals[0].s) {
+			d = sx("bv2nat", vals[0].t)
+			vc.errf("time.AfterFunc in mode bv")
+		} else {
+			d = vals[0].t
+		}
+		f.setCell(f.cur, "ghost:timerDelay", "(Array Int Int)", sx("store", dl, tm.t, d))
+		fnv := f.getCell(f.cur, "ghost:timerFn", "(Array Int Int)")
+		f.setCell(f.cur, "ghost:timerFn", "(Array Int Int)", sx("store", fnv, tm.t, vals[1].t))
+		return tm, true
 	case "(*time.Timer).Stop":
+		// A-STD: true iff the call prevented the timer from firing; the observation is kept in a ghost cell
 		vc.used["A-STD"] = true
-		return vc.freshVal("stopped", types.Typ[types.Bool]), true
+		r := vc.freshVal("stopped", types.Typ[types.Bool])
+		st := f.getCell(f.cur, "ghost:timerStopped", "(Array Int Bool)")
+		f.setCell(f.cur, "ghost:timerStopped", "(Array Int Bool)", sx("store", st, vals[0].t, "true"))
+		f.setCell(f.cur, "ghost:lastTimerStopResult", SBool, r.t)
+		return r, true
 	case "sort.Slice":
 		return f.modelSortSlice(c, pos)
 	}
